@@ -56,8 +56,11 @@ def _replay(rec):
             ret = orig(line)
             return ret
         finally:
-            votes = [e[1] for e in p.matcher.expressions] if p.matcher else None
-            events.append({"ret": ret, "x": p.variables.get("x"), "vote": votes[0] if votes else None})
+            try:
+                votes = [e[1] for e in p.matcher.expressions] if p.matcher else None
+                events.append({"ret": ret, "x": p.variables.get("x"), "vote": votes[0] if votes else None})
+            except Exception:  # noqa: never raise into the implementation
+                runner.harness_failed("c14 observer")
 
     p._consider_line = wrapped
     raised = None
